@@ -101,11 +101,37 @@ STR_METHODS = {'split', 'join', 'format', 'strip', 'lstrip', 'rstrip', 'startswi
 
 
 class Folder:
-    def __init__(self, models=None, opaque_calls=(), steps=20000):
+    def __init__(self, models=None, opaque_calls=(), steps=20000, methods=None):
         self.models = dict(models or {})        # dotted callee name -> python callable building a model value
         self.opaque_calls = set(opaque_calls)   # dotted names / bare names whose call yields Opaque
         self.steps = steps
         self.calls = []                         # (name, args) of opaque calls, in order
+        self.methods = dict(methods or {})      # name -> FunctionDef: `self.<name>(...)` is folded through (depth <= 6)
+        self.depth = 0
+
+    def call_method(self, fn, selfv, args, kw):
+        a = fn.args
+        names = [x.arg for x in a.posonlyargs + a.args]
+        env = {names[0]: selfv} if names else {}
+        ps = names[1:]
+        defaults = dict(zip(reversed(ps), reversed(a.defaults)))
+        for p_, v in zip(ps, args):
+            env[p_] = v
+        for k, v in kw.items():
+            env[k] = v
+        for p_ in ps:
+            if p_ not in env:
+                if p_ not in defaults:
+                    raise Unfoldable('missing argument %s' % p_)
+                env[p_] = self.ev(defaults[p_], {})
+        if self.depth > 6:
+            raise Unfoldable('method depth')
+        self.depth += 1
+        try:
+            r = self.run(fn.body, env)
+        finally:
+            self.depth -= 1
+        return r[1] if r[0] == 'return' else None
 
     def tick(self):
         self.steps -= 1
@@ -226,6 +252,8 @@ class Folder:
         kw = {k.arg: self.ev(k.value, env) for k in e.keywords if k.arg}
         if name in self.models:
             return self.models[name](*args, **kw)
+        if isinstance(e.func, ast.Attribute) and isinstance(e.func.value, ast.Name) and e.func.value.id == 'self' and e.func.attr in self.methods and 'self' in env:
+            return self.call_method(self.methods[e.func.attr], env['self'], args, kw)
         if name and name.split('.')[-1] in self.models and '.' in name:
             return self.models[name.split('.')[-1]](*args, **kw)
         if isinstance(e.func, ast.Name) and e.func.id in FUNCS and e.func.id not in env:
